@@ -11,10 +11,24 @@
 //   commands: commands() against the same path built by direct calls (F16)
 //   gds/oas : simple path saved as PATH record and read back (F14)
 //   probe   : intersection search with small max_evals (hang candidate), max_evals = 1
+// Path indices >= 1000000 (NEW_BASE) are the user-function cases; the indices below keep their generator streams:
+//   class 0/1 (index mod 6): random path as above whose calls take, for a share of the sections, Parametric width / offset
+//             interpolations (user functions: exact linear ramp, exact smooth step, quadratic a + b u^2) and whose straight
+//             caps are realised, for a share of the elements, through EndType::Function; `construct`, `fd` (queries also
+//             against the ARGUMENTS of the calls, evaluated here in long double, both sides of every junction), `region`,
+//             `cont` (NULL width / offset continues with the constant the previous interpolation takes at u = 1), `endfn`
+//             (callback arguments / order of its points in the outline), `pscale` (class 1: scale / transform with
+//             scale_width on / off: widths, offsets, positions and centre curve before and after)
+//   class 2/5: `cont`, one case per construction wrapper (13) after a Linear / Smooth / Parametric taper
+//   class 3 : `ptwin` (user linear ramp / smooth step against the built-in Linear / Smooth on the same path: queries and
+//             outlines bit for bit: the user functions evaluate the same expressions as LERP / SERP), `gtwin` (parametric
+//             sections with against without a gradient function under width / offset changes)
+//   class 4 : `endfn` (callback returning 1..6 points, every element, both ends) and `endtwin` (callback reproducing the
+//             Flush / HalfWidth / Extended caps against the built-in caps)
 // Payloads start with g=<seed>:<index>; a replay regenerates exactly that path.
 // Grid: doubles are multiplied by 2^30 (exact) and rounded to the nearest integer (error <= 2^-31 per coordinate,
 // five orders of magnitude below the guard bands, which are multiples of the path tolerance >= 1e-3).
-// Debug aid: C08_TRACE=1 prints the sections of a replayed path to stderr.
+// Debug aids: C08_TRACE=1 prints the sections of a replayed path to stderr; C08_NEW=<n> overrides the number of user-function indices.
 #include <algorithm>
 #include <cmath>
 #include <gdstk/gdstk.hpp>
@@ -44,7 +58,11 @@ static inline V tov(Vec2 p) { return V{p.x, p.y}; }
 
 struct Emit {
     FILE* o;
-    void K(const std::string& kind, const std::string& payload) { fprintf(o, "K\t%s\t%s\n", kind.c_str(), payload.c_str()); }
+    bool mark = false;  // cases of the user-function classes are counted in stats.json
+    void K(const std::string& kind, const std::string& payload) {
+        fprintf(o, "K\t%s\t%s\n", kind.c_str(), payload.c_str());
+        if (mark) fprintf(o, "T\tuser-function-cases\n");
+    }
     void I(const std::string& s) { fprintf(o, "I\t%s\n", s.c_str()); }
     void P(const std::string& s) { fprintf(o, "P\t%s\n", s.c_str()); }
     void T(const std::string& s) { fprintf(o, "T\t%s\n", s.c_str()); }
@@ -78,6 +96,40 @@ static std::string hexpts(const std::vector<V>& v) {
     return s;
 }
 
+// ------------------------------------------------------------------ user functions for Parametric width / offset interpolations
+// The arithmetic of ufn_lin / ufn_smooth is, operation for operation, that of LERP / SERP (utils.hpp), written out here (not
+// through the macros): on the unchanged library a Parametric interpolation with these functions and the built-in Linear /
+// Smooth interpolation return the same doubles (no contraction to fused multiply-add: -std=c++11, baseline x86-64).
+enum { UK_LIN = 0, UK_SMOOTH = 1, UK_QUAD = 2 };
+struct UData {
+    double a, b;  // UK_LIN / UK_SMOOTH: from a (u = 0) to b (u = 1); UK_QUAD: a + b u^2
+    int kind;
+    uint64_t calls;
+    double umin, umax;  // the parameters the library called the function with (documented: 0 <= u <= 1)
+};
+static UData g_udata[1024];
+static int g_nudata = 0;
+static inline UData* useen(void* d, double u) {
+    UData* p = (UData*)d;
+    if (p->calls++ == 0) p->umin = p->umax = u;
+    if (!(u >= p->umin)) p->umin = u;
+    if (!(u <= p->umax)) p->umax = u;
+    return p;
+}
+static double ufn_lin(double u, void* d) {
+    UData* p = useen(d, u);
+    return p->a * (1 - u) + p->b * u;
+}
+static double ufn_smooth(double u, void* d) {
+    UData* p = useen(d, u);
+    return p->a + (p->b - p->a) * (3 - 2 * u) * u * u;
+}
+static double ufn_quad(double u, void* d) {
+    UData* p = useen(d, u);
+    return p->a + p->b * u * u;
+}
+static bool is_ufn(ParametricDouble f) { return f == ufn_lin || f == ufn_smooth || f == ufn_quad; }
+
 // ------------------------------------------------------------------ section formulas, long double
 static ld interp_l(const Interpolation& ip, ld u) {
     u = u < 0 ? 0 : (u > 1 ? 1 : u);
@@ -85,8 +137,66 @@ static ld interp_l(const Interpolation& ip, ld u) {
         case InterpolationType::Constant: return ip.value;
         case InterpolationType::Linear: return (ld)ip.initial_value + ((ld)ip.final_value - (ld)ip.initial_value) * u;
         case InterpolationType::Smooth: return (ld)ip.initial_value + ((ld)ip.final_value - (ld)ip.initial_value) * (3 - 2 * u) * u * u;
-        default: return (*ip.function)((double)u, ip.data);
+        default:
+            // Parametric: the harness's own functions are evaluated from their data in long double (independently of the
+            // double arithmetic of the function); any other function is called with the data stored beside it
+            if (is_ufn(ip.function) && ip.data) {
+                const UData* p = (const UData*)ip.data;
+                ld a = p->a, b = p->b;
+                if (ip.function == ufn_lin) return a + (b - a) * u;
+                if (ip.function == ufn_smooth) return a + (b - a) * (3 - 2 * u) * u * u;
+                return a + b * u * u;
+            }
+            return (*ip.function)((double)u, ip.data);
     }
+}
+// what a construction call was given for one element (kept by the harness, never read back from the library)
+struct Spec {
+    int kind;     // 0 constant a; 1 Linear a -> b; 2 Smooth a -> b; 3 user linear a -> b; 4 user smooth a -> b; 5 user quadratic a + b u^2
+    double a, b;
+};
+static ld spec_eval(const Spec& s, ld u) {
+    u = u < 0 ? 0 : (u > 1 ? 1 : u);
+    ld a = s.a, b = s.b;
+    switch (s.kind) {
+        case 0: return a;
+        case 1: case 3: return a + (b - a) * u;
+        case 2: case 4: return a + (b - a) * (3 - 2 * u) * u * u;
+        default: return a + b * u * u;
+    }
+}
+static ld spec_mag(const Spec& s) { return fabsl((ld)s.a) + (s.kind ? fabsl((ld)s.b) : 0); }
+static const char* spec_name(int k) {
+    static const char* nm[] = {"constant", "linear", "smooth", "user-linear", "user-smooth", "user-quadratic"};
+    return nm[k < 0 || k > 5 ? 0 : k];
+}
+static Interpolation spec_make(const Spec& s) {
+    Interpolation ip = {};
+    if (s.kind == 0) { ip.type = InterpolationType::Constant; ip.value = s.a; }
+    else if (s.kind <= 2) { ip.type = s.kind == 1 ? InterpolationType::Linear : InterpolationType::Smooth; ip.initial_value = s.a; ip.final_value = s.b; }
+    else {
+        UData* d = &g_udata[g_nudata++ % 1024];
+        *d = UData{s.a, s.b, s.kind - 3, 0, 0, 0};
+        ip.type = InterpolationType::Parametric;
+        ip.function = s.kind == 3 ? ufn_lin : (s.kind == 4 ? ufn_smooth : ufn_quad);
+        ip.data = d;
+    }
+    return ip;
+}
+static bool interp_same(const Interpolation& x, const Interpolation& y) {
+    if (x.type != y.type) return false;
+    switch (x.type) {
+        case InterpolationType::Constant: return x.value == y.value;
+        case InterpolationType::Parametric: return x.function == y.function && x.data == y.data;
+        default: return x.initial_value == y.initial_value && x.final_value == y.final_value;
+    }
+}
+// NULL width / offset argument: the section continues with the constant the previous interpolation takes at u = 1; the stored
+// double may differ from the exact value by the roundings of one evaluation of the previous interpolation
+static bool continues(const Interpolation& got, const Spec& prev, ld* want_out) {
+    ld want = spec_eval(prev, 1);
+    if (want_out) *want_out = want;
+    return got.type == InterpolationType::Constant && fabsl((ld)got.value - want) <= 4 * 2.220446049250313e-16L * (spec_mag(prev) + fabsl(want));
 }
 static ld binom(int n, int k) {
     ld r = 1;
@@ -169,7 +279,7 @@ static Vec2 param_grad(double u, void* data) {
     double a = p->d, b = p->e * 6 * u * (1 - u);
     return Vec2{a * p->fx + b * p->lx, a * p->fy + b * p->ly};
 }
-static ParamData g_param[16];
+static ParamData g_param[64];
 static int g_nparam = 0;
 
 struct Builder {
@@ -185,6 +295,52 @@ struct Builder {
     std::vector<double> prev_w, prev_o;
     int construct_checked = 0;
 
+    // ---- user-function cases (path indices >= NEW_BASE); param == false leaves every choice below as it was
+    bool param = false;
+    int twin = 0;      // 1: built-in Linear / Smooth; 2: the same path with the user linear ramp / smooth step instead
+    int gradmode = 0;  // 1: parametric sections always with their gradient function; 2: never
+    std::vector<std::vector<Spec>> wspec, ospec;  // [section][element]: what the call was given (NULL: constant continuing the previous value at u = 1)
+    std::vector<Spec> call_w, call_o;             // the specs of the call being made
+    std::vector<double> hw_end, ho_end;           // end values according to the ARGUMENTS so far
+    std::string cont_fail;
+    int cont_checked = 0;
+    double exp_ws = 1, exp_os = 1;  // width / offset factors according to the arguments of scale / transform
+    std::vector<char> capfn;        // elements whose straight cap is made by the end callback
+    int side_skipped = 0, tight = -1;
+    Spec mk(int k, double cur, double target) {
+        if (twin == 2 && (k == 1 || k == 2)) return Spec{k + 2, cur, target};
+        switch (k) {
+            case 1: return Spec{1, cur, target};
+            case 2: return Spec{2, cur, target};
+            case 4: case 5: return Spec{5, cur, target - cur};
+            case 6: return Spec{3, cur, target};
+            case 7: return Spec{4, cur, target};
+            default: return Spec{0, cur, 0};
+        }
+    }
+    // as pick, with user functions; straight_off: the offset may only change linearly (sections that may make a corner)
+    void pick_param(const Interpolation*& wp, const Interpolation*& op, bool straight_off) {
+        wi.assign(n, Interpolation{});
+        oi.assign(n, Interpolation{});
+        call_w.assign(n, Spec{0, 0, 0});
+        call_o.assign(n, Spec{0, 0, 0});
+        int wk = (int)g->below(twin ? 4 : 8), ok = (int)g->below(twin ? 4 : 8);
+        if (straight_off) {
+            if (ok == 2 || ok == 7) ok = 1;
+            if (ok == 4 || ok == 5) ok = 6;
+        }
+        for (uint64_t e = 0; e < n; e++) {
+            double cw = hw_end[e], co = ho_end[e];
+            double tw = fabs(cw - el[e].w0) < 1e-9 ? el[e].w1 : el[e].w0;
+            double to = fabs(co - el[e].o0) < 1e-9 ? el[e].o1 : el[e].o0;
+            call_w[e] = mk(wk, cw, tw);
+            call_o[e] = mk(ok, co, to);
+            wi[e] = spec_make(call_w[e]);
+            oi[e] = spec_make(call_o[e]);
+        }
+        wp = wk == 0 ? NULL : wi.data();
+        op = ok == 0 ? NULL : oi.data();
+    }
     std::vector<Interpolation> wi, oi;
     // width / offset arguments: continuous with the current end values
     void pick(const Interpolation*& wp, const Interpolation*& op, bool no_smooth_off) {
@@ -208,10 +364,52 @@ struct Builder {
     }
     void update_heading() {
         if (rp.subpath_array.count == 0) return;
-        Vec2 gr = rp.subpath_array[rp.subpath_array.count - 1].gradient(1, rp.trafo);
+        const SubPath& lastsub = rp.subpath_array[rp.subpath_array.count - 1];
+        Vec2 gr = lastsub.gradient(1, rp.trafo);
+        // gradient twins: the same heading in both paths (without its gradient function a parametric section answers with a
+        // one-sided difference)
+        if (gradmode && lastsub.type == SubPathType::Parametric && lastsub.path_function == param_fn) gr = param_grad(1, lastsub.func_data);
         if (gr.length_sq() > 0) heading = atan2(gr.y, gr.x);
     }
 };
+
+// CONTINUATION oracle: section si of element el was made by a call without width (which = 0) / offset (1) argument: the
+// stored interpolation is a constant, the value the previous interpolation (prev: as it was handed to the earlier call)
+// takes at u = 1, and the queries behind the junction (at it, 2^-20 behind it, in the middle, at the end from below) return
+// it times the accumulated scale factor
+static bool cont_check(const RobustPath& rp, uint64_t n, uint64_t si, uint64_t el, int which, const Spec& prev, ld scale, const char* what, std::string& fail) {
+    const Array<Interpolation>& arr = which == 0 ? rp.elements[el].width_array : rp.elements[el].offset_array;
+    const char* nm = which ? "offset" : "width";
+    char buf[900];
+    if (arr.count <= si) {
+        snprintf(buf, sizeof buf, "element %d holds %d %s interpolations, section %d asked for", (int)el, (int)arr.count, nm, (int)si);
+        if (fail.empty()) fail = buf;
+        return false;
+    }
+    const Interpolation& got = arr[si];
+    ld want = 0;
+    bool okc = continues(got, prev, &want);
+    std::vector<double> q(n);
+    double ub = (double)si;
+    double us[4] = {ub, ub + 1.0 / 1048576, ub + 0.5, ub + 1};
+    double res[4];
+    ld lim = 1e-14L * (spec_mag(prev) + fabsl(want)) * fabsl(scale);
+    bool okq = true;
+    for (int i = 0; i < 4; i++) {
+        if (which == 0) rp.width(us[i], i == 3, q.data());
+        else rp.offset(us[i], i == 3, q.data());
+        res[i] = q[el];
+        if (!(fabsl(res[i] - want * scale) <= lim)) okq = false;
+    }
+    if (okc && okq) return true;
+    snprintf(buf, sizeof buf,
+             "section %d element %d made by (%s) without %s argument after a %s %s (%.17g, %.17g): stored type %d value %.17g; %s(%g) = %.17g, (%g + 2^-20) = %.17g, "
+             "(%g) = %.17g, (%g from below) = %.17g; the previous interpolation ends at %.17Lg, scale factor %Lg",
+             (int)si, (int)el, what, nm, spec_name(prev.kind), nm, prev.a, prev.b, (int)got.type, got.value, nm, us[0], res[0], us[0], res[1], us[2], res[2], us[3], res[3],
+             want, scale);
+    if (fail.empty()) fail = buf;
+    return false;
+}
 
 // one construction call; straight = allowed to make a corner (only after a straight section)
 static void one_call(Builder& B, bool allow_corner) {
@@ -223,12 +421,25 @@ static void one_call(Builder& B, bool allow_corner) {
     bool last_straight = rp.subpath_array.count > 0 && rp.subpath_array[rp.subpath_array.count - 1].type == SubPathType::Segment;
     if (last_straight)
         for (uint64_t e = 0; e < B.n; e++)
-            if (rp.elements[e].offset_array[rp.subpath_array.count - 1].type == InterpolationType::Smooth) last_straight = false;
+            if (rp.elements[e].offset_array[rp.subpath_array.count - 1].type == InterpolationType::Smooth ||
+                (rp.elements[e].offset_array[rp.subpath_array.count - 1].type == InterpolationType::Parametric &&
+                 rp.elements[e].offset_array[rp.subpath_array.count - 1].function != ufn_lin))
+                last_straight = false;
     double turn = 0;
     int kind = (int)g.below(13);
+    if (B.param && B.gradmode) {
+        // gradient twins: the first call makes a parametric section; no call whose geometry continues the library's end gradient
+        // (turn, smooth continuations, commands), so that the two spines are the same doubles
+        if (rp.subpath_array.count == 1) kind = 11;
+        else if (kind == 3) kind = 4;
+        else if (kind == 6) kind = 5;
+        else if (kind == 8) kind = 7;
+        else if (kind == 12) kind = 0;
+    }
     if ((kind == 0 || kind == 1 || kind == 2) && allow_corner && last_straight && g.chance(60)) turn = ((double)g.range(-60, 60)) * M_PI / 180;
     // a corner is only made between two sections whose centre lines are straight
-    B.pick(wp, op, kind <= 2);
+    if (B.param) B.pick_param(wp, op, kind <= 2);
+    else B.pick(wp, op, kind <= 2);
     B.prev_w.assign(B.n, 0.0);
     B.prev_o.assign(B.n, 0.0);
     for (uint64_t el = 0; el < B.n; el++) {
@@ -338,9 +549,11 @@ static void one_call(Builder& B, bool allow_corner) {
         have_end = true;
         B.desc += "interpolation ";
     } else if (kind == 11) {
-        ParamData& pd = g_param[g_nparam++ % 16];
+        ParamData& pd = g_param[g_nparam++ % 64];
         pd = ParamData{f.x, f.y, l.x, l.y, d, e};
-        rp.parametric(param_fn, &pd, g.coin() ? param_grad : NULL, &pd, wp, op, true);
+        bool with_grad = g.coin();
+        if (B.gradmode) with_grad = B.gradmode == 1;
+        rp.parametric(param_fn, &pd, with_grad ? param_grad : NULL, &pd, wp, op, true);
         B.desc += "parametric ";
     } else {
         // commands: one or two instructions (widths / offsets stay constant)
@@ -359,7 +572,47 @@ static void one_call(Builder& B, bool allow_corner) {
     }
     // construction oracle, widths and offsets: every section the call appended carries, per element, the interpolation that was
     // passed (or, with no argument, the constant value the element ended with before the call)
-    if (B.construct_fail.empty() && kind != 10 && kind < 12)
+    if (B.param) {
+        // what the call handed over: interpolation() and commands() are called without width / offset here
+        bool no_args = kind == 10 || kind >= 12;
+        const Interpolation* pw = no_args ? NULL : wp;
+        const Interpolation* po = no_args ? NULL : op;
+        std::vector<Spec> last_w = B.wspec.back(), last_o = B.ospec.back();
+        for (uint64_t si = before; si < rp.subpath_array.count; si++) {
+            std::vector<Spec> sw(B.n), so(B.n);
+            for (uint64_t el = 0; el < B.n; el++) {
+                sw[el] = pw ? B.call_w[el] : Spec{0, B.hw_end[el], 0};
+                so[el] = po ? B.call_o[el] : Spec{0, B.ho_end[el], 0};
+                for (int which = 0; which < 2; which++) {
+                    const Array<Interpolation>& arr2 = which == 0 ? rp.elements[el].width_array : rp.elements[el].offset_array;
+                    const Interpolation* passed = which == 0 ? pw : po;
+                    const char* nm = which ? "offset" : "width";
+                    if (arr2.count != rp.subpath_array.count) {
+                        snprintf(buf, sizeof buf, "element %d holds %d %s interpolations for %d sections", (int)el, (int)arr2.count, nm, (int)rp.subpath_array.count);
+                        if (B.construct_fail.empty()) B.construct_fail = buf;
+                        continue;
+                    }
+                    const Interpolation& got = arr2[si];
+                    if (passed) {
+                        if (!interp_same(got, passed[el]) && B.construct_fail.empty()) {
+                            snprintf(buf, sizeof buf, "section %d element %d: the %s interpolation stored (type %d) is not the %s one the call (%s, last word) was given", (int)si,
+                                     (int)el, nm, (int)got.type, spec_name((which ? B.call_o : B.call_w)[el].kind), B.desc.c_str());
+                            B.construct_fail = buf;
+                        }
+                        continue;
+                    }
+                    B.cont_checked++;
+                    cont_check(rp, B.n, si, el, which, (which ? last_o : last_w)[el], 1, B.desc.c_str(), B.cont_fail);
+                }
+            }
+            B.wspec.push_back(sw);
+            B.ospec.push_back(so);
+        }
+        for (uint64_t el = 0; el < B.n; el++) {
+            B.hw_end[el] = (double)spec_eval(B.wspec.back()[el], 1);
+            B.ho_end[el] = (double)spec_eval(B.ospec.back()[el], 1);
+        }
+    } else if (B.construct_fail.empty() && kind != 10 && kind < 12)
         for (uint64_t si = before; si < rp.subpath_array.count && B.construct_fail.empty(); si++)
             for (uint64_t el = 0; el < B.n && B.construct_fail.empty(); el++)
                 for (int which = 0; which < 2; which++) {
@@ -450,6 +703,10 @@ static void flatten(const RobustPath& rp, const RobustPathElement& el, uint64_t 
         us.push_back(u1);
     }
 }
+// an offset that bends the centre line of a straight section (the user linear ramp does not)
+static bool curved_off(const Interpolation& ip) {
+    return ip.type == InterpolationType::Smooth || (ip.type == InterpolationType::Parametric && ip.function != ufn_lin);
+}
 static CentreCurve centre_curve(const RobustPath& rp, const RobustPathElement& el, const std::vector<double>& corner, ld sag) {
     CentreCurve C;
     uint64_t ns = rp.subpath_array.count;
@@ -476,8 +733,7 @@ static CentreCurve centre_curve(const RobustPath& rp, const RobustPathElement& e
             ld den = crossl(t0, t1);
             ld th = atan2l(fabsl(den), dotl(t0, t1));
             bool straight = rp.subpath_array[s - 1].type == SubPathType::Segment && rp.subpath_array[s].type == SubPathType::Segment &&
-                            el.offset_array[s - 1].type != InterpolationType::Smooth && el.offset_array[s].type != InterpolationType::Smooth &&
-                            el.offset_array[s - 1].type != InterpolationType::Parametric && el.offset_array[s].type != InterpolationType::Parametric;
+                            !curved_off(el.offset_array[s - 1]) && !curved_off(el.offset_array[s]);
             if (th > 1e-3L) {
                 C.theta_max = std::max(C.theta_max, th);
                 if (straight && fabsl(den) > 1e-9L) {
@@ -521,6 +777,26 @@ static CentreCurve centre_curve(const RobustPath& rp, const RobustPathElement& e
     return C;
 }
 
+// precondition of the region oracle: the spine never curves tighter than twice the lateral reach of the elements (inside that
+// radius the displaced curve has cusps and "within half the width of the centre curve" is ambiguous)
+static bool tight_curvature(const Builder& B) {
+    const RobustPath& rp = B.rp;
+    for (uint64_t s = 0; s < rp.subpath_array.count; s++)
+        for (int i = 0; i <= 64; i++) {
+            ld u = (ld)i / 64, hh = 1e-4L;
+            ld ua = u - hh < 0 ? 0 : u - hh, ub = u + hh > 1 ? 1 : u + hh;
+            V d1 = sec_deriv(rp.subpath_array[s], u);
+            V d2 = (sec_deriv(rp.subpath_array[s], ub) - sec_deriv(rp.subpath_array[s], ua)) * (1 / (ub - ua));
+            ld sp = lenl(d1);
+            if (sp <= 0) continue;
+            ld kappa = fabsl(crossl(d1, d2)) / (sp * sp * sp);
+            // user-function classes: Wmax has been multiplied by the factors of scale / transform, the curvature of the stored
+            // section has not
+            if (B.param) kappa /= sqrtl(fabsl((ld)rp.trafo[0] * rp.trafo[4] - (ld)rp.trafo[1] * rp.trafo[3]));
+            if (kappa * 2 * (ld)B.Wmax > 1) return true;
+        }
+    return false;
+}
 // ------------------------------------------------------------------ region
 static void region_case(Builder& B, uint64_t e, const std::string& gid, Polygon* poly, Emit& em) {
     RobustPath& rp = B.rp;
@@ -533,22 +809,10 @@ static void region_case(Builder& B, uint64_t e, const std::string& gid, Polygon*
             return;
         }
     ld tol = B.tol;
-    // precondition: the spine never curves tighter than twice the lateral reach of the elements (inside that
-    // radius the displaced curve has cusps and "within half the width of the centre curve" is ambiguous)
-    for (uint64_t s = 0; s < rp.subpath_array.count; s++)
-        for (int i = 0; i <= 64; i++) {
-            ld u = (ld)i / 64, hh = 1e-4L;
-            ld ua = u - hh < 0 ? 0 : u - hh, ub = u + hh > 1 ? 1 : u + hh;
-            V d1 = sec_deriv(rp.subpath_array[s], u);
-            V d2 = (sec_deriv(rp.subpath_array[s], ub) - sec_deriv(rp.subpath_array[s], ua)) * (1 / (ub - ua));
-            ld sp = lenl(d1);
-            if (sp <= 0) continue;
-            ld kappa = fabsl(crossl(d1, d2)) / (sp * sp * sp);
-            if (kappa * 2 * (ld)B.Wmax > 1) {
-                em.T("region-skipped-tight-curvature");
-                return;
-            }
-        }
+    if (tight_curvature(B)) {
+        em.T("region-skipped-tight-curvature");
+        return;
+    }
     CentreCurve C = centre_curve(rp, rp.elements[e], B.corner, tol / 8);
     ld tolc = 4 * tol + 1e-6L, tolf = 4 * tol + 1e-6L;
     ld reach = (1 / cosl(C.theta_max / 2)) * (1 + C.slope_max);
@@ -708,7 +972,7 @@ static void fd_case(Builder& B, const std::string& gid, Emit& em) {
     Rng& g = *B.g;
     uint64_t ns = rp.subpath_array.count;
     std::string fail;
-    char buf[300];
+    char buf[900];
     ld scale = 1;
     for (uint64_t s = 0; s < ns; s++) scale = std::max(scale, lenl(apply(rp.trafo, sec_point(rp.subpath_array[s], 0.5L))));
     for (int it = 0; it < 24 && fail.empty(); it++) {
@@ -762,6 +1026,38 @@ static void fd_case(Builder& B, const std::string& gid, Emit& em) {
                 fail = std::string("FAIL robustpath-width-offset ") + buf;
                 break;
             }
+        }
+    }
+    // user-function cases: widths / offsets against the ARGUMENTS of the construction calls (spec_eval, long double) and the
+    // factors the scale / transform calls were given: both sides of every junction, both ends, random parameters
+    if (B.param && fail.empty()) {
+        auto chk = [&](double u, bool fb, uint64_t idx, ld ulq) {
+            std::vector<double> wv(B.n), ov(B.n);
+            rp.width(u, fb, wv.data());
+            rp.offset(u, fb, ov.data());
+            for (uint64_t e = 0; e < B.n && fail.empty(); e++) {
+                ld ww = spec_eval(B.wspec[idx][e], ulq) * (ld)B.exp_ws, wo = spec_eval(B.ospec[idx][e], ulq) * (ld)B.exp_os;
+                if (fabsl(ww - wv[e]) > 1e-13L * (1 + fabsl(ww)) || fabsl(wo - ov[e]) > 1e-13L * (1 + fabsl(wo))) {
+                    snprintf(buf, sizeof buf,
+                             "width/offset(%.17g, %d) element %d = %.15g / %.15g; the calls gave section %d a %s width (%.15g, %.15g) and a %s offset (%.15g, %.15g), "
+                             "scale factors %g / %g: %.15Lg / %.15Lg",
+                             u, (int)fb, (int)e, wv[e], ov[e], (int)idx, spec_name(B.wspec[idx][e].kind), B.wspec[idx][e].a, B.wspec[idx][e].b,
+                             spec_name(B.ospec[idx][e].kind), B.ospec[idx][e].a, B.ospec[idx][e].b, B.exp_ws, B.exp_os, ww, wo);
+                    fail = std::string("FAIL robustpath-width-offset ") + buf;
+                }
+            }
+        };
+        if (B.wspec.size() != ns || B.ospec.size() != ns) fail = "FAIL robustpath-construction the calls made a different number of sections than the harness recorded";
+        for (uint64_t s = 0; s <= ns && fail.empty(); s++)
+            for (int fb = 0; fb < 2 && fail.empty(); fb++) {
+                if (s == ns) chk((double)s, fb, ns - 1, 1);
+                else if (fb && s > 0) chk((double)s, true, s - 1, 1);
+                else chk((double)s, fb, s, 0);
+            }
+        for (int it = 0; it < 12 && fail.empty(); it++) {
+            uint64_t s = g.below(ns);
+            double u = (double)s + (double)(1 + g.below(1023)) / 1024.0;
+            chk(u, g.coin(), s, (ld)u - (ld)s);
         }
     }
     // adjacent sections meet
@@ -1147,12 +1443,19 @@ static void probe_case(int variant, uint64_t max_evals, FILE* o) {
 }
 
 // ------------------------------------------------------------------ one path
+static const uint64_t NEW_BASE = 1000000;  // path indices from here on: the user-function classes (see the head of the file)
+static void new_case(uint64_t seed, uint64_t idx, Emit& em);
 static void run_path(uint64_t seed, uint64_t idx, const std::string& outdir, FILE* o) {
-    Emit em{o};
+    Emit em;
+    em.o = o;
     Rng g(seed * 1000003ULL + idx * 7919ULL + 17);
     char gidb[64];
     snprintf(gidb, sizeof gidb, "g=%llu:%llu", (unsigned long long)seed, (unsigned long long)idx);
     std::string gid = gidb;
+    if (idx >= NEW_BASE) {
+        new_case(seed, idx, em);
+        return;
+    }
     if (idx % 4 == 1) {
         query_cases(seed, idx, em);
         return;
@@ -1288,6 +1591,863 @@ static void run_path(uint64_t seed, uint64_t idx, const std::string& outdir, FIL
     }
 }
 
+// ------------------------------------------------------------------ EndType::Function
+// The callback records its arguments and returns either k points on a bulge between the two cap points (mode 0) or the
+// points of the built-in Flush / HalfWidth / Extended cap (modes 1 - 3) rebuilt from the two cap points alone: the cap
+// direction is the normal of first_point - second_point (initial cap: left - right = width x centre normal, the cap points
+// backwards; final cap: right - left, the cap points forwards).
+struct CapCall {
+    Vec2 p0, d0, p1, d1;
+    std::vector<Vec2> ret;
+};
+struct CapData {
+    int mode, k;
+    double ext0, ext1;
+    std::vector<CapCall> calls;
+};
+static CapData g_cap[4];
+static Array<Vec2> cap_fn(const Vec2 p0, const Vec2 d0, const Vec2 p1, const Vec2 d1, void* data) {
+    CapData* c = (CapData*)data;
+    CapCall call = {p0, d0, p1, d1, {}};
+    Vec2 across = p0 - p1;
+    double w = across.length();
+    Vec2 out = w > 0 ? Vec2{-across.y / w, across.x / w} : Vec2{0, 0};
+    double hw = 0.5 * w;
+    std::vector<Vec2>& r = call.ret;
+    if (c->mode == 1) r = {p0, p1};
+    else if (c->mode == 2 || c->mode == 3) {
+        double ext = c->mode == 2 ? hw : (c->calls.empty() ? c->ext0 : c->ext1);
+        if (ext > 0) r = {p0, p0 + out * ext, p1 + out * ext, p1};
+        else r = {p0 + out * ext, p1 + out * ext};
+    } else if (c->k <= 1) r = {(p0 + p1) * 0.5 + out * hw};
+    else
+        for (int i = 0; i < c->k; i++) {
+            double t = (double)i / (c->k - 1);
+            r.push_back(p0 + (p1 - p0) * t + out * (4 * t * (1 - t) * hw));
+        }
+    Array<Vec2> a = {};
+    for (auto& q : r) a.append(q);
+    c->calls.push_back(call);
+    return a;
+}
+// side curves of an element in long double: centre curve displaced along the normal of ITS tangent by half the width
+static V centre_tan(const RobustPath& rp, const RobustPathElement& el, uint64_t s, ld u) {
+    ld h = 1e-5L;
+    ld u0 = u - h < 0 ? 0 : u - h, u1 = u + h > 1 ? 1 : u + h;
+    return (centre_at(rp, el, s, u1) - centre_at(rp, el, s, u0)) * (1 / (u1 - u0));
+}
+static V side_at(const RobustPath& rp, const RobustPathElement& el, uint64_t s, ld u, int sign) {
+    V n = unitl(orthol(centre_tan(rp, el, s, u)));
+    return centre_at(rp, el, s, u) + n * ((ld)sign * 0.5L * interp_l(el.width_array[s], u) * rp.width_scale);
+}
+static V side_dir(const RobustPath& rp, const RobustPathElement& el, uint64_t s, ld u, int sign) {
+    ld h = 1e-4L;
+    ld u0 = u - h < 0 ? 0 : u - h, u1 = u + h > 1 ? 1 : u + h;
+    return unitl(side_at(rp, el, s, u1, sign) - side_at(rp, el, s, u0, sign));
+}
+static bool same_pt(Vec2 a, Vec2 b) { return a.x == b.x && a.y == b.y; }
+static std::vector<CentreCurve> g_ccache;
+// callback arguments against the side curves; the returned points in the outline: right side, final cap (the points of the
+// second call, in the order returned, first argument first), left side backwards, initial cap (first call, at the very end)
+static std::string cap_check(Builder& B, uint64_t e, const Polygon* poly, const CapData& cd) {
+    const RobustPath& rp = B.rp;
+    const RobustPathElement& el = rp.elements[e];
+    uint64_t last = rp.subpath_array.count - 1;
+    char buf[600];
+    if (cd.calls.size() != 2) {
+        snprintf(buf, sizeof buf, "FAIL robustpath-end-function-calls element %d: the end function was called %d times by to_polygons (once per end expected)", (int)e, (int)cd.calls.size());
+        return buf;
+    }
+    V want[2][4] = {{side_at(rp, el, 0, 0, +1), side_dir(rp, el, 0, 0, +1) * (-1.0L), side_at(rp, el, 0, 0, -1), side_dir(rp, el, 0, 0, -1)},
+                    {side_at(rp, el, last, 1, -1), side_dir(rp, el, last, 1, -1), side_at(rp, el, last, 1, +1), side_dir(rp, el, last, 1, +1) * (-1.0L)}};
+    ld hw = std::max(lenl(want[0][0] - want[0][2]), lenl(want[1][0] - want[1][2])) / 2;
+    ld scale = 1;
+    for (int c = 0; c < 2; c++) scale = std::max(scale, std::max(lenl(want[c][0]), lenl(want[c][2])));
+    // the library takes the normals from differences with step 1 / (10 max_evals) = 1e-4, one-sided at the ends: the cap points
+    // are off by up to 1e-4 x curvature x (half width + offset); the direction of a side curve is a difference of two points
+    // whose normals come from a one-sided and a centred difference (half the turning of the normal is lost: of the order of
+    // half width x turning rate / 4, up to 1e-2 rad on the curved sections made here)
+    // (a parametric section without gradient function differences its spine as well: at u = 1 the one-sided spine normal enters
+    // one of the two points of the one-sided centre difference: up to 4e-3 seen at offset 1.6, offset slope 2.25)
+    ld ptol0 = 1e-9L * scale + 1e-3L * (hw + (ld)B.Wmax), dtol = 5e-2L;
+    static const char* an[4] = {"first point", "first direction", "second point", "second direction"};
+    // precondition as for the region oracle: where the spine curves tighter than the reach of the elements the displaced curves
+    // fold over (a side curve then runs backwards): only the order of the points is looked at
+    if (B.tight < 0) B.tight = tight_curvature(B) ? 1 : 0;
+    for (int c = 0; c < 2 && !B.tight; c++) {
+        Vec2 got[4] = {cd.calls[c].p0, cd.calls[c].d0, cd.calls[c].p1, cd.calls[c].d1};
+        const SubPath& endsub = rp.subpath_array[c ? last : 0];
+        ld ptol = endsub.type == SubPathType::Parametric && endsub.path_gradient == NULL ? 3 * ptol0 : ptol0;
+        for (int i = 0; i < 4; i++) {
+            ld dev = lenl(tov(got[i]) - want[c][i]);
+            bool dirn = i & 1;
+            // direction of a side curve: the library differences two side points whose normals come from a one-sided (at the end)
+            // and a centred difference (one step inside): half the turning of the centre normal over the step is lost, an error of
+            // half width x turning rate / 2 against the speed of the side point
+            ld dlim = dtol;
+            if (dirn) {
+                ld ue = c ? 1 : 0, ui = c ? 1 - 1e-3L : 1e-3L;
+                int sg = ((c == 0) == (i < 2)) ? +1 : -1;
+                V t0 = unitl(centre_tan(rp, el, c ? last : 0, ue)), t1 = unitl(centre_tan(rp, el, c ? last : 0, ui));
+                ld turn = atan2l(fabsl(crossl(t0, t1)), dotl(t0, t1)) / 1e-3L;
+                ld speed = lenl(side_at(rp, el, c ? last : 0, ue, sg) - side_at(rp, el, c ? last : 0, ui, sg)) / 1e-3L;
+                ld hwe = 0.5L * fabsl(interp_l(el.width_array[c ? last : 0], ue) * rp.width_scale);
+                if (speed > 0) dlim += 0.75L * hwe * turn / speed;
+            }
+            if (dirn && dev > dlim && endsub.type == SubPathType::Parametric && endsub.path_gradient == NULL) {
+                // genuine defect (see the demo in the report of this finding): the spine normal of a parametric section without
+                // gradient function is a centred difference inside and a one-sided one within 1e-4 of the end; with a tapering
+                // offset the centre point moves by offset x 1e-4 x turning rate over the last step, center_gradient (itself a
+                // one-sided difference there) turns by about a degree and the side point of a narrow element runs BACKWARDS over
+                // the last step: left_gradient / right_gradient are reversed
+                snprintf(buf, sizeof buf,
+                         "FAIL RobustPath::side-gradient:end-lag element %d, %s cap of a parametric section without gradient function: the end function received %s "
+                         "(%.6g, %.6g), the tangent of the %s side curve there is (%.6Lg, %.6Lg): the one-sided differences at the end of the section make the side point run "
+                         "sideways or backwards over the last 1e-4 of the parameter",
+                         (int)e, c ? "final" : "initial", an[i], got[i].x, got[i].y, ((c == 0) == (i < 2)) ? "left" : "right", want[c][i].x, want[c][i].y);
+                return buf;
+            }
+            if (!(dev <= (dirn ? dlim : ptol)) || (dirn && !(fabsl(lenl(tov(got[i])) - 1) <= 1e-9L))) {
+                snprintf(buf, sizeof buf,
+                         "FAIL robustpath-end-function-arguments element %d, %s cap: the end function received %s (%.12g, %.12g); the %s side curve at that end gives (%.12Lg, %.12Lg)%s",
+                         (int)e, c ? "final" : "initial", an[i], got[i].x, got[i].y, ((c == 0) == (i < 2)) ? "left" : "right", want[c][i].x, want[c][i].y,
+                         dirn ? " (unit tangent, pointing out of the path at the first point and into it at the second)" : "");
+                return buf;
+            }
+        }
+    }
+    const std::vector<Vec2>&r0 = cd.calls[0].ret, &r1 = cd.calls[1].ret;
+    uint64_t np = poly->point_array.count;
+    if (np < r0.size() + r1.size()) return "FAIL robustpath-end-function-order the outline has fewer vertices than the end function returned";
+    for (size_t i = 0; i < r0.size(); i++)
+        if (!same_pt(poly->point_array[np - r0.size() + i], r0[i])) {
+            snprintf(buf, sizeof buf,
+                     "FAIL robustpath-end-function-order element %d: the outline does not end with the %d points returned for the initial cap in the order returned (point %d is (%.12g, %.12g), "
+                     "outline vertex %d is (%.12g, %.12g))",
+                     (int)e, (int)r0.size(), (int)i, r0[i].x, r0[i].y, (int)(np - r0.size() + i), poly->point_array[np - r0.size() + i].x, poly->point_array[np - r0.size() + i].y);
+            return buf;
+        }
+    uint64_t body = np - r0.size(), j = body;
+    for (uint64_t st = 0; st + r1.size() <= body && j == body; st++) {
+        bool all = true;
+        for (size_t i = 0; i < r1.size() && all; i++) all = same_pt(poly->point_array[st + i], r1[i]);
+        if (all) j = st;
+    }
+    if (j == body) {
+        snprintf(buf, sizeof buf, "FAIL robustpath-end-function-order element %d: the %d points returned for the final cap do not appear in the outline as one run in the order returned", (int)e,
+                 (int)r1.size());
+        return buf;
+    }
+    // the vertices before the final cap lie right of the centre curve, those between the two caps left of it
+    // (one path per child; the sides of the outline are the same in every round: looked at in the first one)
+    if (g_ccache.size() <= e) g_ccache.resize(e + 1);
+    if (!g_ccache[e].pts.empty()) return "";
+    if (B.tight) {
+        B.side_skipped++;
+        return "";
+    }
+    g_ccache[e] = centre_curve(rp, el, B.corner, (ld)B.tol / 8);
+    const CentreCurve& C = g_ccache[e];
+    ld hwmin = 1e300L;
+    for (ld h : C.hw) hwmin = std::min(hwmin, h);
+    for (uint64_t i = 0; i < body; i++) {
+        if (i >= j && i < j + r1.size()) continue;
+        V v = tov(poly->point_array[i]);
+        ld best = 1e300L, side = 0;
+        size_t kb = 0;
+        for (size_t k = 0; k + 1 < C.pts.size(); k++) {
+            ld d = dist_point_seg(v, C.pts[k], C.pts[k + 1]);
+            if (d < best) { best = d; kb = k; }
+        }
+        {
+            // direction of the centre curve around the nearest piece (at the joint of two sections single pieces of rounding
+            // size, or a short piece running backwards where two centre curves overlap, have no meaningful direction)
+            size_t k1 = kb >= 4 ? kb - 4 : 0, k2 = std::min(kb + 5, C.pts.size() - 1);
+            V dir = C.pts[k2] - C.pts[k1], own = C.pts[kb + 1] - C.pts[kb];
+            if (lenl(own) >= 1e-4L && dotl(own, dir) > 0) dir = own;  // its own direction when it has one (corners)
+            if (lenl(dir) < 1e-6L) continue;
+            side = crossl(dir, v - C.pts[kb]) / lenl(dir);
+        }
+        bool want_left = i > j;
+        // signed distance from the line of the nearest piece of the centre curve: clearly on the other side
+        if (want_left ? side < -0.3L * hwmin : side > 0.3L * hwmin) {
+            snprintf(buf, sizeof buf,
+                     "FAIL robustpath-end-function-order element %d: outline vertex %d (%.9Lg, %.9Lg) lies %s of the centre curve; the final cap points start at vertex %d: right side "
+                     "before them, left side after them",
+                     (int)e, (int)i, v.x, v.y, want_left ? "right" : "left", (int)j);
+            return buf;
+        }
+    }
+    return "";
+}
+
+// ------------------------------------------------------------------ user-function classes
+// a random path as in run_path whose calls take user functions for a share of the sections
+static void param_setup(Builder& B, Rng& g, int twin, int gradmode, int max_calls) {
+    B.g = &g;
+    memset(&B.rp, 0, sizeof B.rp);
+    B.param = true;
+    B.twin = twin;
+    B.gradmode = gradmode;
+    RobustPath& rp = B.rp;
+    B.tol = g.chance(25) ? 0.001 : 0.01;
+    B.n = 1 + g.below(3);
+    static const EndType ends[] = {EndType::Flush, EndType::Round, EndType::HalfWidth, EndType::Extended, EndType::Smooth};
+    double w0 = 0.25 * (double)(1 + g.below(8)), gap = 0.25 * (double)(1 + g.below(4));
+    for (uint64_t e = 0; e < B.n; e++) {
+        ElemCfg c = {};
+        c.w0 = g.chance(70) ? w0 : 0.25 * (double)(1 + g.below(8));
+        double sep = w0 + gap + (B.n > 1 ? 0.5 * w0 : 0);
+        c.o0 = B.n == 1 ? (g.chance(50) ? 0 : 0.25 * (double)g.range(-6, 6)) : sep * ((double)e - 0.5 * (double)(B.n - 1));
+        static const double wf[] = {0.5, 0.75, 1.5, 2.0, 1.0};
+        c.w1 = c.w0 * wf[g.below(5)];
+        c.o1 = g.chance(50) ? c.o0 : c.o0 * (g.coin() ? 0.5 : 1.5) + (B.n == 1 && g.chance(30) ? 0.5 : 0);
+        if (g.chance(25)) c.o1 = c.o0 + (g.coin() ? 1 : -1) * 0.25 * (double)g.range(4, 12);
+        c.end = ends[g.below(5)];
+        c.ext = Vec2{0.25 * (double)g.below(9), 0.25 * (double)g.below(9)};
+        B.el.push_back(c);
+    }
+    B.Wmax = 0;
+    for (auto& c : B.el) B.Wmax = std::max(B.Wmax, 0.5 * std::max(c.w0, c.w1) + std::max(fabs(c.o0), fabs(c.o1)));
+    rp.num_elements = B.n;
+    rp.elements = (RobustPathElement*)allocate_clear(B.n * sizeof(RobustPathElement));
+    std::vector<Tag> tags;
+    std::vector<Spec> sw, so;
+    for (uint64_t e = 0; e < B.n; e++) {
+        B.hw_end.push_back(B.el[e].w0);
+        B.ho_end.push_back(B.el[e].o0);
+        sw.push_back(Spec{0, B.el[e].w0, 0});
+        so.push_back(Spec{0, B.el[e].o0, 0});
+        tags.push_back(make_tag((uint32_t)e, 0));
+    }
+    rp.init(Vec2{0.125 * (double)g.range(-40, 40), 0.125 * (double)g.range(-40, 40)}, B.hw_end.data(), B.ho_end.data(), B.tol, 1000, tags.data());
+    B.capfn.assign(B.n, 0);
+    for (uint64_t e = 0; e < B.n; e++) {
+        rp.elements[e].end_type = B.el[e].end;
+        rp.elements[e].end_extensions = B.el[e].ext;
+        // a straight cap realised through the end callback (the region oracle keeps the cap it stands for)
+        bool straight_cap = B.el[e].end == EndType::Flush || B.el[e].end == EndType::HalfWidth || B.el[e].end == EndType::Extended;
+        if (g.chance(40) && straight_cap && twin == 0 && gradmode == 0) {
+            B.capfn[e] = 1;
+            g_cap[e] = CapData{B.el[e].end == EndType::Flush ? 1 : (B.el[e].end == EndType::HalfWidth ? 2 : 3), 0, 0, 0, {}};
+            rp.elements[e].end_type = EndType::Function;
+            rp.elements[e].end_function = cap_fn;
+            rp.elements[e].end_function_data = &g_cap[e];
+        }
+    }
+    B.heading = ((double)g.range(-180, 180)) * M_PI / 180;
+    rp.segment(Vec2{5 * B.Wmax * cos(B.heading), 5 * B.Wmax * sin(B.heading)}, NULL, NULL, true);
+    B.corner.push_back(0);
+    B.wspec.push_back(sw);
+    B.ospec.push_back(so);
+    B.desc = "segment ";
+    int ncalls = 1 + (int)g.below(max_calls);
+    for (int i = 0; i < ncalls; i++) one_call(B, true);
+}
+
+// scale / transform with the factors kept by the harness
+struct Affine {
+    ld m[6];
+    V operator()(V p) const { return V{m[0] * p.x + m[1] * p.y + m[2], m[3] * p.x + m[4] * p.y + m[5]}; }
+};
+static Affine apply_transform(Builder& B, Rng& g, std::string& what) {
+    RobustPath& rp = B.rp;
+    Affine A = {{1, 0, 0, 0, 1, 0}};
+    static const double sfs[] = {2, 0.5, 1.5, 3, 0.75};
+    double sf = sfs[g.below(5)];
+    rp.scale_width = g.chance(60);
+    int op = (int)g.below(10);
+    char buf[200];
+    bool refl = false;
+    if (op < 4) {
+        if (op == 3) sf = -sf;  // point reflection: offsets keep their sign
+        Vec2 c = Vec2{0.5 * (double)g.range(-10, 10), 0.5 * (double)g.range(-10, 10)};
+        rp.scale(sf, c);
+        A = Affine{{(ld)sf, 0, (ld)c.x * (1 - (ld)sf), 0, (ld)sf, (ld)c.y * (1 - (ld)sf)}};
+        snprintf(buf, sizeof buf, "scale(%g, (%g, %g)) scale_width=%d", sf, c.x, c.y, (int)rp.scale_width);
+    } else {
+        refl = g.coin();
+        double rot = ((double)g.range(-180, 180)) * M_PI / 180;
+        Vec2 o = Vec2{0.5 * (double)g.range(-10, 10), 0.5 * (double)g.range(-10, 10)};
+        rp.transform(sf, refl, rot, o);
+        ld c = cosl((ld)rot), s = sinl((ld)rot), k = refl ? -1 : 1;
+        A = Affine{{c * sf, -s * k * sf, o.x, s * sf, c * k * sf, o.y}};
+        snprintf(buf, sizeof buf, "transform(%g, %d, %g, (%g, %g)) scale_width=%d", sf, (int)refl, rot, o.x, o.y, (int)rp.scale_width);
+    }
+    what = buf;
+    B.exp_os *= fabs(sf) * (refl ? -1 : 1);
+    if (rp.scale_width) B.exp_ws *= fabs(sf);
+    B.Wmax *= fabs(sf);
+    for (auto& c : B.el) c.ext = c.ext * fabs(sf);
+    return A;
+}
+
+struct Snap {
+    Vec2 p, gr;
+    std::vector<double> w, o;
+};
+static Snap snap(const RobustPath& rp, uint64_t n, double u, bool fb) {
+    Snap s;
+    s.p = rp.position(u, fb);
+    s.gr = rp.gradient(u, fb);
+    s.w.assign(n, 0);
+    s.o.assign(n, 0);
+    rp.width(u, fb, s.w.data());
+    rp.offset(u, fb, s.o.data());
+    return s;
+}
+
+static void param_path(uint64_t seed, uint64_t idx, int cls, Emit& em) {
+    Rng g(seed * 1000003ULL + idx * 7919ULL + 61);
+    char gidb[64], buf[900];
+    snprintf(gidb, sizeof gidb, "g=%llu:%llu", (unsigned long long)seed, (unsigned long long)idx);
+    std::string gid = gidb;
+    Builder B;
+    param_setup(B, g, 0, 0, 4);
+    RobustPath& rp = B.rp;
+    uint64_t ns = rp.subpath_array.count;
+    em.K("construct", gid);
+    em.I(std::to_string(B.construct_checked) + " checks");
+    em.P(B.construct_fail.empty() ? "ok" : "FAIL robustpath-construction " + B.construct_fail);
+    em.K("cont", gid + ";path");
+    em.I(std::to_string(B.cont_checked) + " checks");
+    em.P(B.cont_fail.empty() ? "ok" : "FAIL robustpath-null-continuation " + B.cont_fail);
+    for (int i = 0; i < B.cont_checked; i++) em.T("cont-checks-in-random-paths");
+    for (uint64_t s = 1; s < B.wspec.size(); s++)
+        for (uint64_t e = 0; e < B.n; e++) {
+            em.T(std::string("section-width-") + spec_name(B.wspec[s][e].kind));
+            em.T(std::string("section-offset-") + spec_name(B.ospec[s][e].kind));
+        }
+    if (g.chance(30)) {
+        rp.translate(Vec2{0.5 * (double)g.range(-20, 20), 0.5 * (double)g.range(-20, 20)});
+        if (g.coin()) rp.rotate(((double)g.range(-180, 180)) * M_PI / 180, Vec2{1, 2});
+        em.T("transformed");
+    }
+    if (cls == 1 || g.chance(30)) {
+        // queries before and after a scale / transform: widths by the factor when scale_width is set and unchanged otherwise,
+        // offsets by the factor (sign changed by a reflection), positions and the centre points mapped by the transformation
+        std::vector<std::pair<double, bool>> us;
+        for (uint64_t s = 0; s <= ns; s++) { us.push_back({(double)s, false}); us.push_back({(double)s, true}); }
+        for (int i = 0; i < 8; i++) us.push_back({(double)g.below(ns) + (double)(1 + g.below(63)) / 64.0, g.coin()});
+        std::vector<Snap> before;
+        for (auto& u : us) before.push_back(snap(rp, B.n, u.first, u.second));
+        double ws0 = B.exp_ws, os0 = B.exp_os;
+        std::string what, fail;
+        Affine A = apply_transform(B, g, what);
+        ld fw = B.exp_ws / ws0, fo = B.exp_os / os0;
+        ld scale = 1;
+        for (auto& b : before) scale = std::max(scale, std::max(lenl(tov(b.p)), lenl(A(tov(b.p)))));
+        int exact = 0, total = 0;
+        for (size_t i = 0; i < us.size() && fail.empty(); i++) {
+            Snap a = snap(rp, B.n, us[i].first, us[i].second);
+            const Snap& b = before[i];
+            if (lenl(tov(a.p) - A(tov(b.p))) > 1e-11L * scale) {
+                snprintf(buf, sizeof buf, "position(%g, %d) = (%.12g, %.12g) after %s, (%.12g, %.12g) before: the image is (%.12Lg, %.12Lg)", us[i].first, (int)us[i].second, a.p.x,
+                         a.p.y, what.c_str(), b.p.x, b.p.y, A(tov(b.p)).x, A(tov(b.p)).y);
+                fail = std::string("FAIL robustpath-transform-position ") + buf;
+            }
+            for (uint64_t e = 0; e < B.n && fail.empty(); e++) {
+                total += 2;
+                exact += (a.w[e] == (double)(b.w[e] * fw)) + (a.o[e] == (double)(b.o[e] * fo));
+                if (fabsl(a.w[e] - b.w[e] * fw) > 1e-15L * fabsl(b.w[e] * fw) || fabsl(a.o[e] - b.o[e] * fo) > 1e-15L * fabsl(b.o[e] * fo)) {
+                    snprintf(buf, sizeof buf,
+                             "element %d at u = %g (%d), section width %s offset %s: width %.17g -> %.17g, offset %.17g -> %.17g under %s: factors %Lg (width) and %Lg (offset) expected",
+                             (int)e, us[i].first, (int)us[i].second, spec_name(B.wspec[std::min((uint64_t)us[i].first, ns - 1)][e].kind),
+                             spec_name(B.ospec[std::min((uint64_t)us[i].first, ns - 1)][e].kind), b.w[e], a.w[e], b.o[e], a.o[e], what.c_str(), fw, fo);
+                    fail = std::string("FAIL robustpath-transform-width-offset ") + buf;
+                    break;
+                }
+                // the centre point spine + offset x unit normal is mapped like every other point
+                V cb = tov(b.p) + unitl(orthol(tov(b.gr))) * (ld)b.o[e], ca = tov(a.p) + unitl(orthol(tov(a.gr))) * (ld)a.o[e];
+                if (lenl(ca - A(cb)) > 1e-9L * scale) {
+                    snprintf(buf, sizeof buf, "element %d at u = %g: centre point (%.12Lg, %.12Lg) before, (%.12Lg, %.12Lg) after %s, the image of the former is (%.12Lg, %.12Lg)", (int)e,
+                             us[i].first, cb.x, cb.y, ca.x, ca.y, what.c_str(), A(cb).x, A(cb).y);
+                    fail = std::string("FAIL robustpath-transform-centre ") + buf;
+                }
+            }
+        }
+        em.K("pscale", gid + ";" + what);
+        em.I(fail.empty() ? "ok" : "differs");
+        em.P(fail.empty() ? "ok" : fail + " [" + B.desc + "]");
+        em.T(rp.scale_width ? "pscale-with-width" : "pscale-offsets-only");
+        if (exact == total) em.T("pscale-factors-bit-exact");
+    }
+    em.T("elements-" + std::to_string(B.n));
+    em.T("sections-" + std::to_string(ns > 6 ? 6 : ns));
+    if (getenv("C08_TRACE")) {
+        fprintf(stderr, "path %s tol %g elements %d: %s\n", gid.c_str(), B.tol, (int)B.n, B.desc.c_str());
+        for (uint64_t s = 0; s < ns; s++)
+            for (uint64_t e = 0; e < B.n; e++)
+                fprintf(stderr, " section %d element %d: width %s (%g, %g) offset %s (%g, %g)\n", (int)s, (int)e, spec_name(B.wspec[s][e].kind), B.wspec[s][e].a, B.wspec[s][e].b,
+                        spec_name(B.ospec[s][e].kind), B.ospec[s][e].a, B.ospec[s][e].b);
+    }
+    fd_case(B, gid, em);
+    for (uint64_t e = 0; e < B.n; e++) {
+        g_cap[e].calls.clear();
+        g_cap[e].ext0 = B.el[e].ext.u;
+        g_cap[e].ext1 = B.el[e].ext.v;
+    }
+    for (int i = 0; i < g_nudata && i < 1024; i++) g_udata[i].calls = 0;
+    Array<Polygon*> polys = {};
+    ErrorCode err = rp.to_polygons(false, 0, polys);
+    if (polys.count != B.n) {
+        em.K("region", gid + ":all");
+        em.I("error");
+        em.P("FAIL robustpath-to_polygons-error to_polygons produced the wrong number of polygons");
+        return;
+    }
+    if (err != ErrorCode::NoError) em.T("to_polygons-reports-intersection-not-found");
+    // the user functions are documented to receive 0 <= u <= 1
+    {
+        std::string fail;
+        uint64_t calls = 0;
+        for (int i = 0; i < g_nudata && i < 1024; i++) {
+            calls += g_udata[i].calls;
+            if (g_udata[i].calls && fail.empty() && !(g_udata[i].umin >= 0 && g_udata[i].umax <= 1)) {
+                snprintf(buf, sizeof buf, "to_polygons called a width / offset function with parameters from %.17g to %.17g", g_udata[i].umin, g_udata[i].umax);
+                fail = std::string("FAIL robustpath-user-function-domain ") + buf;
+            }
+        }
+        em.K("udomain", gid);
+        em.I(fail.empty() ? "ok" : "differs");
+        em.P(fail.empty() ? "ok" : fail);
+        if (calls) em.T("paths-calling-user-functions-in-to_polygons");
+    }
+    for (uint64_t e = 0; e < B.n; e++) region_case(B, e, gid, polys[e], em);
+    for (uint64_t e = 0; e < B.n; e++)
+        if (B.capfn[e]) {
+            std::string fail = cap_check(B, e, polys[e], g_cap[e]);
+            em.K("endfn", gid + ":" + std::to_string(e) + ";cap=" + end_type_name(B.el[e].end));
+            em.I(fail.empty() ? "ok" : "differs");
+            em.P(fail.empty() ? "ok" : fail + " [" + B.desc + "]");
+            em.T(std::string("region-end-function-as-") + end_type_name(B.el[e].end));
+        }
+}
+
+// ------------------------------------------------------------------ every wrapper that accepts NULL after a taper
+static void cont_cases(uint64_t seed, uint64_t idx, Emit& em) {
+    Rng g(seed * 1000003ULL + idx * 7919ULL + 59);
+    char gidb[64];
+    snprintf(gidb, sizeof gidb, "g=%llu:%llu", (unsigned long long)seed, (unsigned long long)idx);
+    static const char* wname[13] = {"segment", "horizontal", "vertical", "arc", "turn", "cubic", "cubic_smooth", "quadratic", "quadratic_smooth", "bezier", "interpolation",
+                                    "parametric", "commands"};
+    for (int w = 0; w < 13; w++) {
+        RobustPath rp = {};
+        uint64_t n = 1 + g.below(3);
+        rp.num_elements = n;
+        rp.elements = (RobustPathElement*)allocate_clear(n * sizeof(RobustPathElement));
+        std::vector<double> w0(n), o0(n);
+        std::vector<Tag> tags(n, 0);
+        std::vector<Spec> cw(n), co(n);
+        for (uint64_t e = 0; e < n; e++) {
+            w0[e] = 0.05 * (double)(1 + g.below(40));
+            o0[e] = 0.05 * (double)g.range(-40, 40);
+            cw[e] = Spec{0, w0[e], 0};
+            co[e] = Spec{0, o0[e], 0};
+        }
+        rp.init(Vec2{0.1 * (double)g.range(-50, 50), 0.1 * (double)g.range(-50, 50)}, w0.data(), o0.data(), 0.01, 1000, tags.data());
+        if (g.coin()) rp.segment(Vec2{3, 1}, NULL, NULL, true);
+        // the taper: every kind but the constant; at least one of width / offset through a user function
+        int kw = 1 + (int)g.below(5), ko = 1 + (int)g.below(5);
+        if (kw < 3 && ko < 3) (g.coin() ? kw : ko) = 3 + (int)g.below(3);
+        auto next = [&](int kind, const Spec& cur, double target) {
+            double c = (double)spec_eval(cur, 1);
+            return kind == 5 ? Spec{5, c, target - c} : Spec{kind, c, target};
+        };
+        std::vector<Interpolation> wi(n), oi(n);
+        for (uint64_t e = 0; e < n; e++) {
+            cw[e] = next(kw, cw[e], 0.05 * (double)(1 + g.below(40)));
+            co[e] = next(ko, co[e], 0.05 * (double)g.range(-40, 40));
+            wi[e] = spec_make(cw[e]);
+            oi[e] = spec_make(co[e]);
+        }
+        int tk = (int)g.below(3);
+        if (tk == 0) rp.segment(Vec2{6, 2}, wi.data(), oi.data(), true);
+        else if (tk == 1) rp.arc(8, 8, -M_PI / 2, -M_PI / 4, 0, wi.data(), oi.data());
+        else rp.quadratic(Vec2{3, 0.5}, Vec2{6, 2}, wi.data(), oi.data(), true);
+        std::string fail;
+        uint64_t ntaper = rp.subpath_array.count - 1;
+        for (uint64_t e = 0; e < n && fail.empty(); e++)
+            if (!interp_same(rp.elements[e].width_array[ntaper], wi[e]) || !interp_same(rp.elements[e].offset_array[ntaper], oi[e]))
+                fail = "FAIL robustpath-construction the taper section does not store the interpolations it was given";
+        ld ws = 1, os = 1;
+        if (g.chance(30)) {
+            double sf = g.coin() ? 2 : 0.5;
+            rp.scale_width = g.coin();
+            rp.scale(sf, Vec2{1, 1});
+            os = sf;
+            if (rp.scale_width) ws = sf;
+        }
+        // the continuing call: mode 0 neither argument, 1 offset only, 2 width only
+        int mode = w == 12 ? 0 : (int)g.below(3);
+        std::vector<Spec> gw(n), go(n);
+        std::vector<Interpolation> gwi(n), goi(n);
+        for (uint64_t e = 0; e < n; e++) {
+            gw[e] = next(1 + (int)g.below(5), cw[e], 0.05 * (double)(1 + g.below(40)));
+            go[e] = next(1 + (int)g.below(5), co[e], 0.05 * (double)g.range(-40, 40));
+            gwi[e] = spec_make(gw[e]);
+            goi[e] = spec_make(go[e]);
+        }
+        const Interpolation* wp = mode == 2 ? gwi.data() : NULL;
+        const Interpolation* op = mode == 1 ? goi.data() : NULL;
+        bool rel = g.coin();
+        Vec2 c = rp.end_point;
+        Vec2 gr = rp.subpath_array[rp.subpath_array.count - 1].gradient(1, rp.trafo);
+        Vec2 f = gr / gr.length(), l = Vec2{-f.y, f.x};
+        auto P = [&](double a, double s) { return (rel ? Vec2{0, 0} : c) + f * a + l * s; };
+        uint64_t s1 = rp.subpath_array.count;
+        std::vector<Vec2> pts;
+        Array<Vec2> arr = {};
+        switch (w) {
+            case 0: rp.segment(P(5, 1), wp, op, rel); break;
+            case 1: rp.horizontal(rel ? 4 : c.x + 4, wp, op, rel); break;
+            case 2: rp.vertical(rel ? -4 : c.y - 4, wp, op, rel); break;
+            case 3: { double a0 = atan2(f.y, f.x) - M_PI / 2; rp.arc(7, 6, a0, a0 + 0.8, 0, wp, op); } break;
+            case 4: rp.turn(6, g.coin() ? 0.9 : -0.9, wp, op); break;
+            case 5: rp.cubic(P(2, 0), P(4, 1), P(6, 2), wp, op, rel); break;
+            case 6: rp.cubic_smooth(P(4, 1), P(6, 2), wp, op, rel); break;
+            case 7: rp.quadratic(P(3, 0), P(6, 2), wp, op, rel); break;
+            case 8: rp.quadratic_smooth(P(6, 1), wp, op, rel); break;
+            case 9:
+                pts = {P(2, 0), P(4, 1), P(6, 1), P(8, 2)};
+                arr.items = pts.data();
+                arr.count = pts.size();
+                rp.bezier(arr, wp, op, rel);
+                break;
+            case 10: {
+                pts = {P(5, 1), P(10, 0)};
+                arr.items = pts.data();
+                arr.count = pts.size();
+                double angles[3] = {0, 0, 0};
+                bool cons[3] = {false, false, false};
+                Vec2 tension[3] = {Vec2{1, 1}, Vec2{1, 1}, Vec2{1, 1}};
+                // with an argument interpolation() would restart the taper in each piece (known finding): NULL on both sides
+                mode = 0;
+                wp = op = NULL;
+                rp.interpolation(arr, angles, cons, tension, 1, 1, false, wp, op, rel);
+            } break;
+            case 11: {
+                ParamData& pd = g_param[g_nparam++ % 64];
+                pd = ParamData{f.x, f.y, l.x, l.y, 8, 1.5};
+                rp.parametric(param_fn, &pd, g.coin() ? param_grad : NULL, &pd, wp, op, true);
+            } break;
+            default: {
+                std::vector<CurveInstruction> v;
+                auto num = [&](double x) { CurveInstruction ci; ci.number = x; v.push_back(ci); };
+                auto cmd = [&](char ch) { CurveInstruction ci; ci.number = 0; ci.command = ch; v.push_back(ci); };
+                static const char letters[] = "hvlcsqtaAE";
+                char ch = letters[g.below(10)];
+                cmd(ch);
+                switch (ch) {
+                    case 'h': case 'v': num(3); break;
+                    case 'l': case 't': num(4); num(1); break;
+                    case 'c': num(2); num(0); num(4); num(1); num(6); num(2); break;
+                    case 's': case 'q': num(3); num(0.5); num(6); num(2); break;
+                    case 'a': num(6); num(0.7); break;
+                    case 'A': num(6); num(0.2); num(1.1); break;
+                    default: num(6); num(5); num(0.2); num(1.1); num(0.1); break;
+                }
+                if (rp.commands(v.data(), v.size()) != v.size()) fail = "FAIL robustpath-commands-count commands() did not consume all items";
+            }
+        }
+        std::string what = std::string(wname[w]) + (mode == 0 ? ", no width / offset argument" : (mode == 1 ? ", offset argument only" : ", width argument only"));
+        int checked = 0;
+        auto check_new = [&](uint64_t from, const Interpolation* pw, const Interpolation* po, const std::vector<Spec>& pws, const std::vector<Spec>& pos) {
+            if (rp.subpath_array.count <= from && fail.empty()) fail = "FAIL robustpath-construction the call (" + what + ") appended no section";
+            for (uint64_t si = from; si < rp.subpath_array.count; si++)
+                for (uint64_t e = 0; e < n; e++)
+                    for (int which = 0; which < 2; which++) {
+                        const Interpolation* passed = which ? po : pw;
+                        const Array<Interpolation>& a2 = which ? rp.elements[e].offset_array : rp.elements[e].width_array;
+                        std::string cf;
+                        if (passed) {
+                            if ((a2.count <= si || !interp_same(a2[si], passed[e])) && fail.empty())
+                                fail = "FAIL robustpath-construction section " + std::to_string(si) + " (" + what + ") does not store the " + (which ? "offset" : "width") + " interpolation it was given";
+                        } else {
+                            checked++;
+                            if (!cont_check(rp, n, si, e, which, (which ? pos : pws)[e], which ? os : ws, what.c_str(), cf) && fail.empty())
+                                fail = "FAIL robustpath-null-continuation " + cf;
+                        }
+                    }
+        };
+        check_new(s1, wp, op, cw, co);
+        // the junction from below still shows the end of the taper
+        {
+            std::vector<double> q(n), r(n);
+            rp.width((double)s1, true, q.data());
+            rp.offset((double)s1, true, r.data());
+            for (uint64_t e = 0; e < n && fail.empty(); e++)
+                if (fabsl(q[e] - spec_eval(cw[e], 1) * ws) > 1e-14L * spec_mag(cw[e]) * ws || fabsl(r[e] - spec_eval(co[e], 1) * os) > 1e-14L * spec_mag(co[e]) * os) {
+                    char buf[400];
+                    snprintf(buf, sizeof buf, "element %d: width / offset(%d from below) = %.17g / %.17g, the %s / %s taper ends at %.17Lg / %.17Lg", (int)e, (int)s1, q[e], r[e],
+                             spec_name(cw[e].kind), spec_name(co[e].kind), spec_eval(cw[e], 1) * ws, spec_eval(co[e], 1) * os);
+                    fail = std::string("FAIL robustpath-width-offset ") + buf;
+                }
+        }
+        // one more section without arguments: both values continue from what the call above was given
+        uint64_t s2 = rp.subpath_array.count;
+        rp.segment(Vec2{2, 1}, NULL, NULL, true);
+        what += ", then segment without arguments";
+        check_new(s2, NULL, NULL, wp ? gw : std::vector<Spec>(cw), op ? go : std::vector<Spec>(co));
+        em.K("cont", std::string(gidb) + ";" + wname[w] + ";mode=" + std::to_string(mode) + ";taper=" + spec_name(kw) + "/" + spec_name(ko) + ";n=" + std::to_string(n) +
+                         (ws != 1 || os != 1 ? ";scaled" : ""));
+        em.I(std::to_string(checked) + " checks");
+        em.P(fail.empty() ? "ok" : fail);
+        em.T(std::string("cont-after-width-") + spec_name(kw));
+        em.T(std::string("cont-after-offset-") + spec_name(ko));
+        em.T(std::string("cont-wrapper-") + wname[w]);
+    }
+}
+
+// ------------------------------------------------------------------ twins
+static bool same_outlines(const Array<Polygon*>& a, const Array<Polygon*>& b) {
+    if (a.count != b.count) return false;
+    for (uint64_t i = 0; i < a.count; i++) {
+        if (a[i]->point_array.count != b[i]->point_array.count) return false;
+        for (uint64_t j = 0; j < a[i]->point_array.count; j++)
+            if (!same_pt(a[i]->point_array[j], b[i]->point_array[j])) return false;
+    }
+    return true;
+}
+static ld outline_dev(const Array<Polygon*>& a, const Array<Polygon*>& b) {
+    if (a.count != b.count) return 1e300L;
+    ld m = 0;
+    for (uint64_t i = 0; i < a.count; i++) {
+        std::vector<V> p, q;
+        for (uint64_t j = 0; j <= a[i]->point_array.count; j++) p.push_back(tov(a[i]->point_array[j % a[i]->point_array.count]));
+        for (uint64_t j = 0; j <= b[i]->point_array.count; j++) q.push_back(tov(b[i]->point_array[j % b[i]->point_array.count]));
+        ld d = poly_dev(p, q);
+        if (!(d <= m)) m = d;
+    }
+    return m;
+}
+// winding number of a closed polygon around p (p not on the boundary)
+static int winding(const std::vector<V>& poly, V p) {
+    int w = 0;
+    for (size_t i = 0; i + 1 < poly.size(); i++) {
+        V a = poly[i], b = poly[i + 1];
+        if (a.y <= p.y) {
+            if (b.y > p.y && crossl(b - a, p - a) > 0) w++;
+        } else if (b.y <= p.y && crossl(b - a, p - a) < 0) w--;
+    }
+    return w;
+}
+// the two outlines cover the same region up to lim: where the boundaries are farther apart than lim (one intersection search
+// between two sections found its crossing and the other did not: the side pieces then overlap in a small loop INSIDE the region)
+// points around the deviating vertices, clear of both boundaries by lim / 2, are covered by both or by neither
+static bool same_region(const Array<Polygon*>& a, const Array<Polygon*>& b, ld lim, std::string& why, V* where) {
+    if (a.count != b.count) { why = "different numbers of polygons"; return false; }
+    for (uint64_t i = 0; i < a.count; i++) {
+        std::vector<V> p, q;
+        for (uint64_t j = 0; j <= a[i]->point_array.count; j++) p.push_back(tov(a[i]->point_array[j % a[i]->point_array.count]));
+        for (uint64_t j = 0; j <= b[i]->point_array.count; j++) q.push_back(tov(b[i]->point_array[j % b[i]->point_array.count]));
+        for (int side = 0; side < 2; side++) {
+            const std::vector<V>&mine = side ? q : p, &other = side ? p : q;
+            for (size_t j = 0; j + 1 < mine.size(); j++) {
+                if (!(dist_point_poly(mine[j], other) > lim)) continue;
+                for (int k = 0; k < 8; k++) {
+                    V s = mine[j] + V{cosl(0.785398163397L * k + 0.3L), sinl(0.785398163397L * k + 0.3L)} * lim;
+                    if (dist_point_poly(s, p) < lim / 2 || dist_point_poly(s, q) < lim / 2) continue;
+                    if ((winding(p, s) != 0) != (winding(q, s) != 0)) {
+                        char buf[300];
+                        snprintf(buf, sizeof buf, "element %d: the point (%.9Lg, %.9Lg), %.3Lg or more away from both outlines, is covered by one of them only (winding numbers %d | %d)", (int)i,
+                                 s.x, s.y, lim / 2, winding(p, s), winding(q, s));
+                        why = buf;
+                        if (where) *where = s;
+                        return false;
+                    }
+                }
+            }
+        }
+    }
+    return true;
+}
+static void twin_cases(uint64_t seed, uint64_t idx, Emit& em) {
+    char gidb[64], buf[900];
+    snprintf(gidb, sizeof gidb, "g=%llu:%llu", (unsigned long long)seed, (unsigned long long)idx);
+    for (int t = 0; t < 3; t++) {
+        bool grad = t == 2;
+        uint64_t sd = seed * 1000003ULL + idx * 7919ULL + 67 + (uint64_t)t * 101;
+        Rng g1(sd), g2(sd);
+        Builder A, B;
+        param_setup(A, g1, grad ? 0 : 1, grad ? 1 : 0, 3);
+        param_setup(B, g2, grad ? 0 : 2, grad ? 2 : 0, 3);
+        std::string fail;
+        uint64_t ns = A.rp.subpath_array.count;
+        const char* key = grad ? "robustpath-gradient-function-twin" : "robustpath-parametric-twin";
+        if (A.desc != B.desc || B.rp.subpath_array.count != ns || A.n != B.n) fail = "FAIL harness-twin-diverged the two constructions made different calls: " + A.desc + "| " + B.desc;
+        if (!A.construct_fail.empty()) fail = "FAIL robustpath-construction " + A.construct_fail;
+        if (!B.construct_fail.empty()) fail = "FAIL robustpath-construction " + B.construct_fail;
+        if (!A.cont_fail.empty()) fail = "FAIL robustpath-null-continuation " + A.cont_fail;
+        if (!B.cont_fail.empty()) fail = "FAIL robustpath-null-continuation " + B.cont_fail;
+        Rng g(sd + 13);
+        if (fail.empty() && g.coin()) {
+            double sf = g.coin() ? 2 : 1.5;
+            bool sw = g.chance(70);
+            for (Builder* b : {&A, &B}) {
+                b->rp.scale_width = sw;
+                b->rp.scale(sf, Vec2{1, 2});
+                b->Wmax *= sf;
+            }
+            em.T(grad ? "gtwin-scaled" : "ptwin-scaled");
+        }
+        ld scale = 1;
+        int nuser = 0;
+        if (fail.empty()) {
+            for (uint64_t s = 0; s < ns; s++)
+                for (uint64_t e = 0; e < A.n; e++) nuser += (B.wspec[s][e].kind >= 3) + (B.ospec[s][e].kind >= 3);
+            for (uint64_t s = 0; s < ns; s++) scale = std::max(scale, lenl(tov(A.rp.position((double)s + 0.5, false))));
+            std::vector<std::pair<double, bool>> us;
+            for (uint64_t s = 0; s <= ns; s++) { us.push_back({(double)s, false}); us.push_back({(double)s, true}); }
+            for (int i = 0; i < 16; i++) us.push_back({(double)g.below(ns) + (double)g.below(1000001) / 1000000.0, g.coin()});
+            for (auto& u : us) {
+                Snap a = snap(A.rp, A.n, u.first, u.second), b = snap(B.rp, B.n, u.first, u.second);
+                bool okp = same_pt(a.p, b.p) && (grad ? lenl(tov(a.gr) - tov(b.gr)) <= 5e-3L * (1 + lenl(tov(a.gr))) : same_pt(a.gr, b.gr));
+                bool okw = true;
+                for (uint64_t e = 0; e < A.n; e++) okw = okw && a.w[e] == b.w[e] && a.o[e] == b.o[e];
+                if (!okp || !okw) {
+                    snprintf(buf, sizeof buf,
+                             "at u = %.17g (from_below %d): position (%.17g, %.17g) | (%.17g, %.17g), gradient (%.12g, %.12g) | (%.12g, %.12g), element 0 width %.17g | %.17g offset %.17g | %.17g "
+                             "(%s | %s)",
+                             u.first, (int)u.second, a.p.x, a.p.y, b.p.x, b.p.y, a.gr.x, a.gr.y, b.gr.x, b.gr.y, a.w[0], b.w[0], a.o[0], b.o[0],
+                             grad ? "with gradient function" : "built-in Linear / Smooth", grad ? "without" : "user functions evaluating the same expressions");
+                    fail = std::string("FAIL ") + key + " " + buf;
+                    break;
+                }
+            }
+        }
+        if (fail.empty() && grad && tight_curvature(A)) em.T("gtwin-outlines-not-compared-tight-curvature");
+        else if (fail.empty()) {
+            Array<Polygon*> pa = {}, pb = {};
+            A.rp.to_polygons(false, 0, pa);
+            B.rp.to_polygons(false, 0, pb);
+            if (same_outlines(pa, pb)) em.T(grad ? "gtwin-outlines-bit-identical" : "ptwin-outlines-bit-identical");
+            else {
+                // two samplings of the same curve (each checked at two inner points per step against the tolerance: up to 3 tol from the
+                // curve seen): 4 tol as in the region oracle, 8 tol where the arithmetic differs; without its gradient function a parametric section takes the spine normal from a difference of step 1e-4, one-sided
+                // at the ends: the displaced curves move by up to step / 2 x turning rate (<= 10 rad per unit here) x (offset + half width)
+                ld dev = outline_dev(pa, pb), lim = (grad ? 8 : 4) * (ld)A.tol + (grad ? 5e-4L * (ld)A.Wmax : 0);
+                std::string why;
+                if (dev <= lim) em.T(grad ? "gtwin-outlines-within-tolerance" : "ptwin-outlines-within-tolerance");
+                V where = {0, 0};
+                if (dev <= lim) {}
+                else if (same_region(pa, pb, lim, why, &where)) em.T(grad ? "gtwin-outlines-differ-inside-the-region" : "ptwin-outlines-differ-inside-the-region");
+                else {
+                    snprintf(buf, sizeof buf, "the outlines of the two paths deviate by %.6Lg (limit %.3Lg, tolerance %g) and do not cover the same region: %s", dev, lim, A.tol, why.c_str());
+                    fail = std::string("FAIL ") + key + " " + buf;
+                    // genuine defect (finding RobustPath::side-gradient:end-lag): within 1e-4 of the end of a parametric section without
+                    // gradient function the spine normal is a one-sided difference; with a tapering offset the centre direction there turns
+                    // by about a degree and the corners of the end cap (or the side points handed to the junction search) move by several
+                    // tolerances: the difference sits at an end of such a section
+                    ld capext = 0;  // the cap corners lie beyond the end of the spine by the extension of the cap
+                    for (uint64_t e = 0; e < B.n; e++) capext = std::max(capext, (ld)std::max(B.rp.elements[e].end_extensions.u, B.rp.elements[e].end_extensions.v));
+                    for (uint64_t s = 0; s < ns && grad; s++)
+                        if (B.rp.subpath_array[s].type == SubPathType::Parametric)
+                            for (int en = 0; en < 2; en++)
+                                if (lenl(where - tov(B.rp.position((double)(s + en), en == 1))) <= 2 * (ld)A.Wmax + 2 * lim + capext)
+                                    fail = std::string("FAIL RobustPath::side-gradient:end-lag at the ") + (en ? "end" : "start") + " of parametric section " + std::to_string(s) +
+                                           ", which has no gradient function in the second path: " + buf;
+                }
+            }
+        }
+        em.K(grad ? "gtwin" : "ptwin", std::string(gidb) + ";t=" + std::to_string(t) + ";user-interpolations=" + std::to_string(nuser));
+        em.I(fail.empty() ? "ok" : "differs");
+        em.P(fail.empty() ? "ok" : fail + " [" + A.desc + "]");
+        if (nuser == 0 && !grad) em.T("ptwin-without-taper");
+    }
+}
+
+// ------------------------------------------------------------------ end callback: 1..6 points, twins of the built-in caps
+static void endfn_cases(uint64_t seed, uint64_t idx, Emit& em) {
+    Rng g(seed * 1000003ULL + idx * 7919ULL + 71);
+    char gidb[64], buf[600];
+    snprintf(gidb, sizeof gidb, "g=%llu:%llu", (unsigned long long)seed, (unsigned long long)idx);
+    Builder B;
+    param_setup(B, g, 0, 0, 3);
+    RobustPath& rp = B.rp;
+    if (g.chance(30)) {
+        std::string what;
+        apply_transform(B, g, what);
+        em.T("endfn-transformed");
+    }
+    ld scale = 1;
+    for (uint64_t s = 0; s < rp.subpath_array.count; s++) scale = std::max(scale, lenl(tov(rp.position((double)s + 0.5, false))));
+    auto set_fn = [&](int mode, int k0) {
+        for (uint64_t e = 0; e < B.n; e++) {
+            g_cap[e] = CapData{mode, ((k0 - 1 + (int)e) % 6) + 1, B.el[e].ext.u, B.el[e].ext.v, {}};
+            rp.elements[e].end_type = EndType::Function;
+            rp.elements[e].end_function = cap_fn;
+            rp.elements[e].end_function_data = &g_cap[e];
+        }
+    };
+    std::string pre;
+    if (!B.construct_fail.empty()) pre = "FAIL robustpath-construction " + B.construct_fail;
+    else if (!B.cont_fail.empty()) pre = "FAIL robustpath-null-continuation " + B.cont_fail;
+    // three rounds per path; element e returns ((k - 1 + e) mod 6) + 1 points: every count at every element position over two
+    // consecutive paths of this class
+    for (int k = 1 + (int)(((idx - NEW_BASE) / 6) % 2); k <= 6; k += 2) {
+        set_fn(0, k);
+        Array<Polygon*> polys = {};
+        rp.to_polygons(false, 0, polys);
+        std::string fail = pre;
+        if (polys.count != B.n) fail = "FAIL robustpath-to_polygons-error to_polygons produced the wrong number of polygons";
+        for (uint64_t e = 0; e < B.n && fail.empty(); e++) {
+            fail = cap_check(B, e, polys[e], g_cap[e]);
+            em.T("endfn-points-" + std::to_string(g_cap[e].k));
+        }
+        em.K("endfn", std::string(gidb) + ";k=" + std::to_string(k) + ";n=" + std::to_string(B.n));
+        em.I(fail.empty() ? "ok" : "differs");
+        em.P(fail.empty() ? "ok" : fail + " [" + B.desc + "]");
+    }
+    if (B.side_skipped) em.T("endfn-order-only-tight-curvature");
+    static const EndType builtin[4] = {EndType::Flush, EndType::Flush, EndType::HalfWidth, EndType::Extended};
+    for (int mode = 1; mode <= 3; mode++) {
+        for (uint64_t e = 0; e < B.n; e++) {
+            rp.elements[e].end_type = builtin[mode];
+            rp.elements[e].end_extensions = B.el[e].ext;
+        }
+        Array<Polygon*> pa = {}, pb = {};
+        rp.to_polygons(false, 0, pa);
+        set_fn(mode, 1);
+        rp.to_polygons(false, 0, pb);
+        std::string fail = pre;
+        if (pa.count != B.n || pb.count != B.n) fail = "FAIL robustpath-to_polygons-error to_polygons produced the wrong number of polygons";
+        for (uint64_t e = 0; e < B.n && fail.empty(); e++) {
+            fail = cap_check(B, e, pb[e], g_cap[e]);
+            if (!fail.empty()) break;
+            uint64_t na = pa[e]->point_array.count, nb = pb[e]->point_array.count;
+            ld worst = 0;
+            uint64_t wi = 0;
+            for (uint64_t i = 0; i < na && i < nb; i++) {
+                ld d = lenl(tov(pa[e]->point_array[i]) - tov(pb[e]->point_array[i]));
+                if (!(d <= worst)) { worst = d; wi = i; }
+            }
+            if (na != nb || !(worst <= 1e-9L * scale)) {
+                snprintf(buf, sizeof buf,
+                         "element %d: the built-in %s cap gives %d outline vertices, the end function returning the same cap points %d; largest vertex distance %.6Lg at vertex %d "
+                         "((%.12g, %.12g) | (%.12g, %.12g))",
+                         (int)e, end_type_name(builtin[mode]), (int)na, (int)nb, worst, (int)wi, pa[e]->point_array[wi < na ? wi : 0].x, pa[e]->point_array[wi < na ? wi : 0].y,
+                         pb[e]->point_array[wi < nb ? wi : 0].x, pb[e]->point_array[wi < nb ? wi : 0].y);
+                fail = std::string("FAIL robustpath-end-function-twin ") + buf;
+            }
+        }
+        em.K("endtwin", std::string(gidb) + ";cap=" + end_type_name(builtin[mode]) + ";n=" + std::to_string(B.n));
+        em.I(fail.empty() ? "ok" : "differs");
+        em.P(fail.empty() ? "ok" : fail + " [" + B.desc + "]");
+    }
+}
+
+static void new_case(uint64_t seed, uint64_t idx, Emit& em) {
+    em.mark = true;
+    switch ((idx - NEW_BASE) % 6) {
+        case 0: param_path(seed, idx, 0, em); break;
+        case 1: param_path(seed, idx, 1, em); break;
+        case 3: twin_cases(seed, idx, em); break;
+        case 4: endfn_cases(seed, idx, em); break;
+        default: cont_cases(seed, idx, em); break;  // 2 and 5
+    }
+}
+
 // ------------------------------------------------------------------ parent
 // VERIF_KINDS (comma list) restricts the case kinds that are recorded (used when another property's check runs this
 // harness for its PATH-record cases only); crashes are always recorded
@@ -1407,6 +2567,12 @@ int main(int argc, char** argv) {
     if (kind_wanted("probe")) probes(out);
     uint64_t npaths = tier == "thorough" ? 4000 : 160;
     for (uint64_t idx = 0; idx < npaths; idx++) one(seed, idx);
+    // user-function classes (Parametric widths / offsets, NULL continuation, end callback, scale / transform)
+    bool want_new = false;
+    for (const char* k : {"cont", "ptwin", "gtwin", "endfn", "endtwin", "pscale", "udomain"}) want_new = want_new || kind_wanted(k);
+    uint64_t nnew = tier == "thorough" ? 1200 : 24;
+    if (getenv("C08_NEW")) nnew = strtoull(getenv("C08_NEW"), NULL, 10);  // debug aid: number of user-function indices
+    for (uint64_t k = 0; k < nnew && want_new; k++) one(seed, NEW_BASE + k);
     out.close();
     return 0;
 }
